@@ -75,7 +75,7 @@ def programs(t):
                                  [('i8', -4, 6, -1), ('i8', -7, 4, -3), ('u8', -3, 7, 0), ('i16', -8, 8, -2), ('i16', -8, 12, -7), ('i32', -8, 8, -2), ('i32', -16, 20, -4), ('i32', -1, 31, 0),
                                   ('i64', -30, 31, -10), ('i64', -40, 50, -20), ('u32', -8, 24, 0)]):
             sn(T(srep, se), d, e)
-        for (sd, se, d, e) in ([(7, -4, 6, -1), (12, -8, 8, -2), (20, -16, 6, -1)] if not t else [(7, -4, 6, -1), (7, -4, 4, -3), (12, -8, 8, -2), (15, -10, 10, -5), (20, -16, 6, -1), (40, -30, 16, -4)]):
+        for (sd, se, d, e) in ([(7, -4, 6, -1), (12, -8, 8, -2), (20, -16, 6, -1), (8, -8, 4, 0)] if not t else [(7, -4, 6, -1), (7, -4, 4, -3), (12, -8, 8, -2), (15, -10, 10, -5), (20, -16, 6, -1), (40, -30, 16, -4), (8, -8, 4, 0), (6, -9, 4, 0)]):
             for stag in ['NEA', 'TIE', 'NEG']:
                 sn('SN<%d, %d, %s>' % (sd, se, stag), d, e, 'static_number<%d,%d,%s>' % (sd, se, RT[stag]))
     return lines
